@@ -29,6 +29,8 @@ pub use db::{check::CheckOptions, Db, Operation, TreeReader, Value};
 pub use error::set_number_of_allowed_io_operations;
 pub use error::{Error, Result};
 #[cfg(feature = "verif")]
+pub use error::verif_remaining_io_operations;
+#[cfg(feature = "verif")]
 pub use index::verif_find_entry;
 pub use migration::{clear_column, migrate};
 pub use multitree::{Children, NewNode, NodeAddress, NodeRef};
